@@ -58,8 +58,20 @@ def search_from(rng, vocab, items, allow_gt=False):
     cands = [s for s in items if s and '\n' not in s]
     base = rng.choice(cands) if cands and rng.random() < 0.85 else vocab.sid(vocab.any_type(rng), rng)
     segs = base.split('/')
+    from props.c01 import natural as _natural
+    nt = _natural(vocab, base) if ':' not in base and '?' not in base else None
+    open_pos = set()
+    if nt:
+        open_pos = set(i for i, (k, e) in enumerate(vocab.types[nt[0]]) if vocab.alternatives(e) is None)
     for i in range(len(segs)):
         r = rng.random()
+        if i in open_pos and len(segs[i]) >= 3 and rng.random() < 0.3 and not any(ch in segs[i] for ch in '*>,?:[]'):
+            # a star inside a free value: head*tail, the two taken from the value itself and possibly overlapping in it ("ophel*lia"
+            # does not match "ophelia": a star stands for a run of characters, never for a negative length)
+            w = segs[i]
+            k_, j_ = rng.randrange(1, len(w)), rng.randrange(1, len(w))
+            segs[i] = w[:k_] + '*' + w[j_:]
+            continue
         if r < 0.3:
             segs[i] = '*'
         elif r < 0.36 and allow_gt:
@@ -68,12 +80,6 @@ def search_from(rng, vocab, items, allow_gt=False):
             segs[i] = segs[i] + ',' + rng.choice(NAMES + ['ma', 'v001', 'w'])
         elif r < 0.5 and segs[i]:
             segs[i] = segs[i][0] + '*'
-        elif r < 0.56 and len(segs[i]) >= 3 and not any(ch in segs[i] for ch in '*>,?:'):
-            # a star inside a value: head*tail, the two taken from the value itself and possibly overlapping in it ("ophel*lia" does
-            # not match "ophelia": the star stands for at least nothing, never for a negative length)
-            w = segs[i]
-            k_, j_ = rng.randrange(1, len(w)), rng.randrange(1, len(w))
-            segs[i] = w[:k_] + '*' + w[j_:]
     if rng.random() < 0.3 and len(segs) >= 2:
         i = rng.randrange(1, len(segs)); j = rng.randrange(i, len(segs) + 1)
         segs = segs[:i] + ['**'] + segs[j:]
